@@ -73,7 +73,7 @@ impl Engine for Msim {
         vec![
             "interleavings are explored at the granularity of the cfg(deadpool_verif) schedule points under sequential consistency; interleavings inside tokio's semaphore or inside single statements are not".into(),
             "bounds: max_size <= 5, <= 6 concurrent gets, <= 2 hooks per kind, bounded history length".into(),
-            "no runtime is configured (timeouts other than a zero wait are decided by the tsim engine)".into(),
+            "the interpreter's pools have no runtime; timeouts other than a zero wait are exercised by the stage `timeouts` (virtual-clock interpreter of the tsim engine) for C01 - C04 and by C10".into(),
         ]
     }
 
